@@ -93,6 +93,23 @@ theorem attempt_is_error : AttemptIsError := by
 def g121Flags : Flags := { noExec := false, noWrites := false, noReads := true, hook := true }
 def g121State : St := St.init [[105]] [[105]] 2      -- one operand "i", which exists (the former G12-1 witness)
 
+/-! ### a reused Interpreter: each Execute is judged by its own configuration -/
+
+/-- The effects of run k depend only on run k's configuration: whatever `Execute` calls came before or come after on the same
+Interpreter (other flags, another or no OpenFile), run k's trace is the trace of a fresh run under its own config. -/
+theorem session_run_independent (pre pre' post post' : List RunCfg) (r : RunCfg) :
+    (session (pre ++ r :: post))[pre.length]? = some (execute r) ∧
+    (session (pre ++ r :: post))[pre.length]? = (session (pre' ++ r :: post'))[pre'.length]? := by
+  simp [session]
+
+/-- … hence every run of a session is confined by ITS OWN flags and opens files only through ITS OWN open function. -/
+theorem session_confined (runs : List RunCfg) (r : RunCfg) (g : List Effect) (e : Effect)
+    (_hr : execute r ∈ session runs) (hg : g ∈ execute r) (he : e ∈ g) :
+    (r.flags.noExec = true → e.process = false) ∧ (r.flags.noWrites = true → e.fileWrite = false) ∧
+    (r.flags.noReads = true → e.fileRead = false) ∧ e.viaHook = true := by
+  have := trace_ok r.flags r.ops _ (inv_init r.flags r.existing r.args r.stdinRecs) g hg e he
+  exact ⟨this.1, this.2.1, this.2.2.1, this.2.2.2⟩
+
 /-! ### the regenerated inventory of OS-reaching call sites of package interp -/
 
 theorem gen_matches : Generated.C12IoSites.sites = expectedSites := by decide
@@ -115,6 +132,7 @@ example : effects exFlags (St.init [] [] 1) exOps = [.useStdin, .useStdout, .sof
 example : denied exFlags (St.init [] [] 1) (.printGt [111] true) = some .noFileWrites := by decide
 example : effects { noExec := true, noWrites := false, noReads := true, hook := false } (St.init [] [] 1) [.printGt [111] true, .printPipe [111] true, .close [111]] =
     [.open [111] .wrTrunc .configured true, .useStream [111] .outFile, .useStream [111] .outFile, .closeStream [111] .outFile] := by decide
+example : (session [⟨exFlags, [], [], 1, exOps⟩, ⟨g121Flags, [[105]], [[105]], 2, [.getline]⟩])[1]? = some [[.error .noFileReads]] := by decide
 example : firstRegular g121State.args = true ∧ g121State.cur = 0 := by decide
 example : (step g121Flags g121State .mainLoop).1 = [.error .noFileReads] := by decide
 example : (step g121Flags g121State .getline).1 = [.error .noFileReads] := by decide
